@@ -2,73 +2,14 @@ import DepLogic.Model.Version
 import DepLogic.Model.Spec
 import DepLogic.Model.Generic
 import DepLogic.Model.Pep440
+import DepLogic.Model.SpecParse
 /-
   Text encodings of model values for the line protocol (harness ⇄ driver).
   Part of the trusted correspondence machinery, not of any theorem.
 -/
 namespace DepLogic
 namespace Codec
-
-def natOfDigits? (s : List Char) : Option Nat :=
-  if s.isEmpty then none
-  else if s.all Char.isDigit then some (s.foldl (fun n c => n * 10 + (c.toNat - '0'.toNat)) 0)
-  else none
-
-def splitOnChar (c : Char) (s : List Char) : List (List Char) :=
-  let rec go (cur : List Char) (acc : List (List Char)) : List Char → List (List Char)
-    | [] => (cur.reverse :: acc).reverse
-    | x :: xs => if x == c then go [] (cur.reverse :: acc) xs else go (x :: cur) acc xs
-  go [] [] s
-
-/-- split a leading run of digits off -/
-def spanDigits (s : List Char) : List Char × List Char := s.span Char.isDigit
-
-/-- one dot-item of a canonical version: `N`, `NaM`/`NbM`/`NrcM`, `postN`, `devN` -/
-inductive Item where
-  | rel (n : Nat) | relPre (n : Nat) (k : PreKind) (m : Nat) | post (n : Nat) | dev (n : Nat)
-
-def parseItem (s : List Char) : Option Item :=
-  match s with
-  | 'p' :: 'o' :: 's' :: 't' :: r => (natOfDigits? r).map .post
-  | 'd' :: 'e' :: 'v' :: r => (natOfDigits? r).map .dev
-  | _ =>
-    let (d, r) := spanDigits s
-    match natOfDigits? d with
-    | none => none
-    | some n =>
-      match r with
-      | [] => some (.rel n)
-      | 'a' :: m => (natOfDigits? m).map (.relPre n .a)
-      | 'b' :: m => (natOfDigits? m).map (.relPre n .b)
-      | 'r' :: 'c' :: m => (natOfDigits? m).map (.relPre n .rc)
-      | _ => none
-
-/-- parse `str(Version)` (canonical public version) -/
-def parseVerL (s : List Char) : Option Ver :=
-  let (epoch?, rest) :=
-    match splitOnChar '!' s with
-    | [e, r] => (natOfDigits? e, r)
-    | [r] => (some 0, r)
-    | _ => (none, [])
-  match epoch? with
-  | none => none
-  | some epoch =>
-    let items := (splitOnChar '.' rest).map parseItem
-    if items.any Option.isNone then none
-    else
-      let items := items.filterMap id
-      -- state machine: release numbers, optional pre on the last one, optional post, optional dev
-      let rec go (rel : List Nat) (pre : Option (PreKind × Nat)) (post dev : Option Nat)
-          (stage : Nat) : List Item → Option Ver
-        | [] => if rel.isEmpty then none else
-            some { epoch := epoch, release := rel.reverse, pre := pre, post := post, dev := dev }
-        | .rel n :: t => if stage == 0 then go (n :: rel) pre post dev 0 t else none
-        | .relPre n k m :: t => if stage == 0 then go (n :: rel) (some (k, m)) post dev 1 t else none
-        | .post n :: t => if stage ≤ 1 && !rel.isEmpty then go rel pre (some n) dev 2 t else none
-        | .dev n :: t => if stage ≤ 2 && !rel.isEmpty then go rel pre post (some n) 3 t else none
-      go [] none none none 0 items
-
-def parseVer (s : String) : Option Ver := parseVerL s.toList
+open SpecParse
 
 def parseBool : String → Option Bool
   | "t" => some true | "f" => some false | _ => none
@@ -80,29 +21,6 @@ def parseOptVer (s : String) : Option (Option Ver) :=
 
 def showOptVer : Option Ver → String
   | none => "-" | some v => v.str
-
-/-- clause text `op version[.*]` over canonical version spellings -/
-def parseClauseL (s : List Char) : Option (Clause Ver) :=
-  let (op?, rest) : Option COp × List Char :=
-    match s with
-    | '>' :: '=' :: r => (some .ge, r)
-    | '<' :: '=' :: r => (some .le, r)
-    | '=' :: '=' :: r => (some .eq, r)
-    | '!' :: '=' :: r => (some .ne, r)
-    | '~' :: '=' :: r => (some .compat, r)
-    | '>' :: r => (some .gt, r)
-    | '<' :: r => (some .lt, r)
-    | _ => (none, [])
-  match op? with
-  | none => none
-  | some op =>
-    let (body, wild) :=
-      match rest.reverse with
-      | '*' :: '.' :: r => (r.reverse, true)
-      | _ => (rest, false)
-    if wild && !(op == .eq || op == .ne) then none
-    else (parseVerL body).bind fun v =>
-      if wild && !v.isFinal then none else some { op := op, ver := v, wild := wild }
 
 def clauseText (c : Clause Ver) : String :=
   c.op.str ++ c.ver.str ++ (if c.wild then ".*" else "")
@@ -154,23 +72,6 @@ def showGRes : GRes → String
   | .any => "A"
   | .spec g => "S\t" ++ g.op.str ++ "\t" ++ g.value
 
-
-def trimL (s : List Char) : List Char :=
-  ((s.dropWhile (· == ' ')).reverse.dropWhile (· == ' ')).reverse
-
-/-- `a,b||c` over canonical clause spellings -/
-def parseAltsText (s : String) : Option (List Alt) :=
-  let parts := s.splitOn "||"
-  let one (p : String) : Option Alt :=
-    if p == "<empty>" then some .empty
-    else
-      let t := trimL p.toList
-      if t.isEmpty then some (.clauses [])
-      else
-        let cs := (splitOnChar ',' t).map fun x => parseClauseL (trimL x)
-        if cs.any Option.isNone then none else some (.clauses (cs.filterMap id))
-  let alts := parts.map one
-  if alts.any Option.isNone then none else some (alts.filterMap id)
 
 def showClauses (cs : List (Clause Ver)) : String := ",".intercalate (cs.map clauseText)
 
